@@ -56,7 +56,7 @@ def static_H1():
     for n in ast.walk(tree):
         if isinstance(n, ast.Subscript) and (isinstance(n.ctx, (ast.Store, ast.Del)) or n in aug):
             base = ast.unparse(n.value)
-            obs.append(static_ob("C13.H1.commands-item-store.line%d" % n.lineno, base in ("self.arguments", "self.extra_arguments", "globals()"),
+            obs.append(static_ob("C13.H1.commands-item-store.line%d" % n.lineno, (base.startswith("self.") or base == "globals()"),
                                  "commands.py:%d item store into %s (a shared table?)" % (n.lineno, base), "ast-scan"))
     return obs
 
